@@ -47,6 +47,10 @@ LIBRARY_TEMPLATES = [
      ["dbtp Util::LIMIT", "dbtp Util.twice(2)", "w = Worker.new", "dbtp w.work", "dbtp w.helper(1, 2, key: 3)", "dbtp w.missing"]),
     (["def lib_id(x)", "  x", "end", "def lib_pair(a, b = 1)", "  [a, b]", "end", "def lib_unused(u)", "  1", "end", "$lib_global = 1", "LIB_CONST = \"s\""],
      ["dbtp lib_id(1)", "dbtp lib_id(\"s\")", "dbtp lib_pair(1.5)", "dbtp lib_unused", "dbtp $lib_global", "dbtp LIB_CONST", "dbtp lib_missing(1)"]),
+    # two library files in one template: the second redefines what the first defines (cut between them as well)
+    (["def conf", "  \"s\"", "end", "$mode = \"s\"", "LIB_A = 1",
+      "def conf", "  1", "end", "$mode = 1", "def only_second", "  conf", "end"],
+     ["dbtp conf", "dbtp $mode", "x = conf", "dbtp only_second", "dbtp LIB_A"]),
     (["class Base1", "  def self.build(kind)", "    new", "  end", "  def kind", "    @kind", "  end", "  protected", "  def guarded", "    1", "  end",
       "  private", "  def hidden", "    2", "  end", "end", "class Derived1 < Base1", "  def peek(other)", "    other.guarded", "  end", "end"],
      ["d = Derived1.build(:x)", "dbtp d", "dbtp d.kind", "dbtp d.peek(Derived1.new)", "dbtp d.guarded", "dbtp d.hidden"]),
@@ -79,6 +83,8 @@ def library_programs(work, stats, rng, tier):
     for defs, uses in LIBRARY_TEMPLATES:
         text = "\n".join(defs + uses) + "\n"
         forced = [(len(defs) + 1,)]
+        if defs[0] == "def conf":
+            forced.append((6, len(defs) + 1))      # settings | override | target
         out.append(("library-template", text, None, forced))
     return out
 
@@ -121,7 +127,8 @@ def run(tier, work):
                 parts.append("\n".join(lines[prev - 1:r_ - 1]) + "\n")
                 prev = r_
             target = "\n".join(lines[prev - 1:])
-            names = ["p%d.rb" % (i + 1) for i in range(len(parts))]
+            # written order is NOT file-name order: the first preload file sorts last
+            names = ["p%d.rb" % (9 - i) for i in range(len(parts))]
             for args in (["t.rb"], ["t.rb", "-i"]):
                 files = {n: p for n, p in zip(names, parts)}
                 files["t.rb"] = target
